@@ -53,7 +53,7 @@ def evalAt (point : Option (List (String × Rat))) (ps : List (Poly String)) : J
   | none => Json.null
   | some pt => Json.arr (ps.map fun p => jRat (evalPoly (fun q => q) (fun k => dgetD pt k 0) p)).toArray
 
-def h : Handler := fun op j =>
+def hStep : Handler := fun op j =>
   match op with
   | "build" => do
       let subst ← getStrList j "subst"
@@ -85,5 +85,19 @@ def h : Handler := fun op j =>
               ("exprs", Json.arr (o.exprs.map jPoly).toArray), ("f", evalAt point o.exprs)]).compress
       | _ => .error "!bad-arg:builder"
   | _ => .error "!bad-op"
+
+/-- op "history": {"steps": [build cases …]} — the model is a pure function of the CURRENT public state, so a history of builds over
+    mutated objects is the list of independent builds; answer: JSON array of the per-step answers (as strings) -/
+def h : Handler := fun op j =>
+  match op with
+  | "history" => do
+      let outs ← (← getArr j "steps").mapM fun s => do
+        let sop ← getStr s "op"
+        if sop == "history" then .error "!bad-arg:nested-history" else
+        match hStep sop s with
+        | .ok o => pure o
+        | .error e => pure e
+      pure (Json.arr (outs.map Json.str).toArray).compress
+  | _ => hStep op j
 
 def main : IO Unit := run h
